@@ -266,7 +266,9 @@ def fixture_spec(rng, tok, depth=0):
         spec["details"].append([name, tok("F").encode().hex()])
     r = rng.random()
     if r < 0.2:
-        spec["setup"] = rng.choice(["error", "fail", "kbd"])
+        # (a fixture used by ANOTHER fixture's _setUp is never interrupted: fixtures 4.3.2's own Fixture.useFixture
+        # trips over the cleaned-up child - getDetails() of None - and hands testtools a TypeError instead)
+        spec["setup"] = rng.choice(["error", "fail", "kbd"] if depth == 0 else ["error", "fail", "error"])
     elif r < 0.35:
         spec["cleanup"] = rng.choice(["error", "fail"])
     if rng.random() < 0.3:
